@@ -74,15 +74,8 @@ def tree_bytes(entries, hash_key="md5") -> bytes:
     """Canonical listing: entries = {relpath: file digest}."""
     items = []
     for rel in sorted(entries):
-        items.append(
-            "{%s: %s, %s: %s}"
-            % (
-                _json_str(hash_key),
-                _json_str(entries[rel]),
-                _json_str("relpath"),
-                _json_str(rel),
-            )
-        )
+        fields = sorted([(hash_key, entries[rel]), ("relpath", rel)])   # keys of an entry are sorted too
+        items.append("{" + ", ".join("%s: %s" % (_json_str(k), _json_str(v)) for k, v in fields) + "}")
     return ("[" + ", ".join(items) + "]").encode("utf-8")
 
 
